@@ -340,6 +340,25 @@ func (w *c19World) stopRace() {
 				c.Recv()
 			}
 		})
+	case "after-second-start":
+		// Start on the running server (refused or not) must not make the
+		// server forget the connections it is serving
+		cl, o := sched.Dial(":6379")
+		if o.Status == "ok" {
+			racers = append(racers, cl.Raw())
+			cl.Do("PING")
+		}
+		before := len(w.srv.Conns())
+		w.srv.Start()
+		vrt.WaitQuiet()
+		if n := len(w.srv.Conns()); n != before {
+			w.fail("registry-entry-lost", fmt.Sprintf("Start on the running server: the registry held %d connection(s) before and %d after, all are still open", before, n))
+		}
+		if o.Status == "ok" {
+			if o := cl.Do("PING"); o.Status != "ok" || string(o.Reply.Data) != "PONG" {
+				w.fail("other-connection-disturbed", fmt.Sprintf("PING after a second Start got %s", o))
+			}
+		}
 	case "tls-stalled":
 		raw, err := vrt.Dial(":6380")
 		if err == nil {
@@ -428,7 +447,7 @@ func c19Run(c *fw.Ctx) {
 		}
 	}
 	rec(nil)
-	for _, race := range []string{"connecting", "backlog", "in-flight", "tls-handshaking", "tls-stalled"} {
+	for _, race := range []string{"connecting", "backlog", "in-flight", "tls-handshaking", "tls-stalled", "after-second-start"} {
 		for bg := 0; bg <= 1; bg++ {
 			if !c.Mine() {
 				continue
@@ -525,7 +544,7 @@ func init() {
 	fw.Register(&fw.Prop{
 		ID:          "C19",
 		Level:       "fault_enumeration",
-		Rule:        "(sequential) representative requests, alone and behind a PING: end of stream at EVERY byte offset with EOF and with reset, a Write failing from call 1..3, QUIT at each pipeline position (also with a failing write), every single-byte substitution of 18 valid streams; oracle: loop returned, transport closed, registry empty. (scheduled) a server with plain and TLS port started with Start(), 0..2 background connections, then every sequence of 1..2 (thorough 3) endings out of {EOF at a boundary, EOF inside a request, reset inside a request, QUIT, malformed frame, client that stops reading until the server's Write parks and then resets, TLS garbage handshake, TLS abort after ClientHello, TLS certificate rejected by the common-name rule, valid TLS client then reset, valid TLS client then orderly close}, real crypto/tls, every schedule with <=1 deviation; after each ending, at quiescence: the server closed that socket, no server goroutine is parked on it, the registry holds exactly the background connections, which are still served; finally Stop releases everything (sockets, goroutines, registry, listeners). Plus Stop racing with a connecting client, a client still in the accept backlog, a client with a command in flight, a client in the TLS handshake and one stalled before its ClientHello (deviation bound 2).",
+		Rule:        "(sequential) representative requests, alone and behind a PING: end of stream at EVERY byte offset with EOF and with reset, a Write failing from call 1..3, QUIT at each pipeline position (also with a failing write), every single-byte substitution of 18 valid streams; oracle: loop returned, transport closed, registry empty. (scheduled) a server with plain and TLS port started with Start(), 0..2 background connections, then every sequence of 1..2 (thorough 3) endings out of {EOF at a boundary, EOF inside a request, reset inside a request, QUIT, malformed frame, client that stops reading until the server's Write parks and then resets, TLS garbage handshake, TLS abort after ClientHello, TLS certificate rejected by the common-name rule, valid TLS client then reset, valid TLS client then orderly close}, real crypto/tls, every schedule with <=1 deviation; after each ending, at quiescence: the server closed that socket, no server goroutine is parked on it, the registry holds exactly the background connections, which are still served; finally Stop releases everything (sockets, goroutines, registry, listeners). Plus Stop racing with a connecting client, a client still in the accept backlog, a client with a command in flight, a client in the TLS handshake and one stalled before its ClientHello, and Stop after a second Start() on the running server, which must leave registry and connections as they were (deviation bound 2).",
 		Assumptions: []string{"the in-memory transport is the only kind of descriptor the framework opens besides listeners: 'descriptor released' = Close called on it", "10^4-cycle churn and /proc/self/fd counts are replaced by zero residue per ending from every reachable small registry state"},
 		Run:         c19Run,
 		Replay:      c19Replay,
